@@ -11,13 +11,13 @@ from sim import runner, evidence
 # property -> (engine, tiers)
 CHECKS = {
     'C01': {'engine': 'history',
-            'quick': {'runs': 1600, 'len_range': (8, 40)},
-            'thorough': {'runs': 40000, 'len_range': (10, 60)}},
+            'quick': {'runs': 6000, 'len_range': (8, 40)},
+            'thorough': {'runs': 120000, 'len_range': (10, 60)}},
     'C07': {'engine': 'history',
-            'quick': {'runs': 1200, 'len_range': (6, 30)},
-            'thorough': {'runs': 30000, 'len_range': (8, 50)}},
+            'quick': {'runs': 4000, 'len_range': (6, 30)},
+            'thorough': {'runs': 100000, 'len_range': (8, 50)}},
     'C19': {'engine': 'history',
-            'quick': {'runs': 1600, 'len_range': (6, 30)},
+            'quick': {'runs': 3000, 'len_range': (6, 30)},
             'thorough': {'runs': 40000, 'len_range': (8, 50)}},
 }
 
@@ -36,6 +36,9 @@ def main(argv):
     ap.add_argument('--json', action='store_true')
     ap.add_argument('--budget', type=float)
     ap.add_argument('--first', type=int, default=0)
+    ap.add_argument('--dump-digests',
+                    help='write per-run event-log digests to this file and '
+                         'do nothing else (determinism self-test)')
     a = ap.parse_args(argv)
     prop = a.prop
     import optiland
@@ -68,6 +71,16 @@ def main(argv):
     cfg['tier'] = tier
     budget = a.budget or cfg.pop('budget', None)
     eng = spec['engine']
+    if a.dump_digests:
+        results, _ = runner.run_batch(eng, prop, a.seed, cfg, nruns,
+                                      a.workers, None, a.first)
+        rows = [[r['run'], r.get('digest'), r.get('step_digests'),
+                 (r.get('violation') or {}).get('signature'),
+                 bool(r.get('error'))] for r in results]
+        with open(a.dump_digests, 'w') as f:
+            json.dump(rows, f)
+        print(f'{prop}: {len(rows)} digests -> {a.dump_digests}')
+        return 0
 
     def ev(results, wall, truncated, nviol, known_hit):
         return evidence.build(prop, eng, tier, a.seed, results, wall,
